@@ -19,7 +19,7 @@ META = {
     "deciding": ["binomial_evaluations.binary_joint_log_likelihood_ndarray", "brier_evaluations._brier_score_ndarray",
                  "trace:binary test_distribution[j]~simulated[j]", "trace:brier test_distribution[j]~simulated[j]"],
 }
-META["added"] = 'Added: Fortran / transposed arrays for primitives and tests, injected Brier collisions (two numbers in one bin), forecasts re-scaled before the tests, many low-rate active bins (product underflow), shared object histories from gridcases.'
+META["added"] = 'Added: Fortran / transposed arrays for primitives and tests, injected Brier collisions (two numbers in one bin), forecasts re-scaled before the tests, many low-rate active bins (product underflow), shared object histories from gridcases. array-valued scale factors.'
 MANIFEST = {
     "technique": "runtime post-conditions on the real binary-likelihood / Brier primitives (every call, including those made for simulated catalogs) vs expm1-based oracle; simulator boundary log + offline alignment of test distributions; metamorphic activity-only check",
     "level_text": "Every call of the two score primitives - direct, from the three public tests, and for each simulated catalog - is compared with the definition computed by an independent cancellation-free formula; test distributions are aligned with the recorded simulated catalogs; dependence on activity only is checked by re-scoring min(w,1) and k*w.",
@@ -129,11 +129,13 @@ def ex_e2e(ctx, case, test="BS", num_sim=4, seed=1, layout="C", inject=False, sc
         fore._data = numpy.asfortranarray(fore._data)
     elif layout == "T":
         fore._data = numpy.ascontiguousarray(fore._data.T).T
+    scale_tag = scale
+    scale = gridcases.scale_factor(scale, rates.shape, seed)
     if scale is not None:
         # history: the forecast was re-scaled (scale / scale_to_test_date) before the test; the rates in force are data = _data * _scale
         fore.scale(scale)
         rates = rates * scale
-    rc = {"exec": "e2e", "args": {"case": case, "test": test, "num_sim": num_sim, "seed": seed, "layout": layout, "inject": inject, "scale": scale}}
+    rc = {"exec": "e2e", "args": {"case": case, "test": test, "num_sim": num_sim, "seed": seed, "layout": layout, "inject": inject, "scale": scale_tag}}
     ctx.current_case = rc
     if test == "BS":
         fn, mod, lam, wobs = be.binary_spatial_test, be, rates.sum(axis=1), w.sum(axis=1)
@@ -270,5 +272,5 @@ def run(ctx):
         case = gridcases.gen_case(r, max_cells=30, max_mag=5, max_events=40, rate_lo=-9, rate_hi=1, events_in_zero=(j % 6 == 0))
         for test in ("BS", "BCL", "BR"):
             ex_e2e(ctx, case, test, num_sim=int(r.choice([1, 3, 5])), seed=int(r.integers(0, 100)), layout=["C", "F", "T"][j % 3], inject=bool(j % 2),
-                   scale=None if j % 4 else float(r.choice([0.25, 0.5, 3.0])))
+                   scale=None if j % 4 else (float(r.choice([0.25, 0.5, 3.0])) if j % 8 else str(r.choice(["percell", "permag", "full"]))))
         ex_maps(ctx, case)
